@@ -1703,7 +1703,12 @@ class CheckedCoverageInstrumentation(transformer.CheckedCoverageInstrumentationA
                     InstrumentationConstantLoad(value=instr.opcode),
                     InstrumentationConstantLoad(value=instr.lineno),
                     InstrumentationConstantLoad(value=instr_original_index),
-                    InstrumentationConstantLoad(value=cfg.bytecode_cfg.get_block_index(instr.arg)),  # type: ignore[arg-type]
+                    InstrumentationConstantLoad(
+                        # BEFORE_WITH / BEFORE_ASYNC_WITH (3.11+) have no jump target
+                        value=cfg.bytecode_cfg.get_block_index(instr.arg)
+                        if isinstance(instr.arg, BasicBlock)
+                        else None
+                    ),
                 ),
             ),
             instr.lineno,
